@@ -62,10 +62,13 @@ fn producer(kind: usize, i: usize, text: &str, tabs: bool) -> String {
         6 => format!("enum V{i} : uint8 {{\n{ind}A = 1\n{ind}B = 1\n}}\n"),
         7 => format!("enum W{i} : int8 {{\n{ind}A = 128\n}}\n"),
         // multi-line span (the enumerator with its fields) and a note with span
+        // (odd ones carry multi-byte text and a tab on the inner lines of the span)
+        8 if i % 2 == 1 => format!("enum X{i} : uint8 {{\n{ind}A( // größe 中\n{ind}{ind}x: int32\t// é\n{ind}{ind}y: bool\n{ind})\n}}\n"),
         8 => format!("enum X{i} : uint8 {{\n{ind}A(\n{ind}{ind}x: int32\n{ind}{ind}y: bool\n{ind})\n}}\n"),
         9 => format!("compact struct Z{i} {{}}\n"),
         // notes without span
         10 => format!("[oneway] struct O{i} {{}}\n"),
+        11 if i % 2 == 1 => format!("interface K{i} {{\n{ind}op( /* ünï */\n{ind}{ind}a: stream int32 // 中文\n{ind}{ind}b: stream int32\n{ind}{ind}c: bool\n{ind})\n}}\n"),
         11 => format!("interface K{i} {{\n{ind}op(\n{ind}{ind}a: stream int32\n{ind}{ind}b: stream int32\n{ind}{ind}c: bool\n{ind})\n}}\n"),
         12 => format!("struct H{i} {{\n{ind}d: Dictionary<float32, int8>\n}}\n"),
         13 => format!("typealias Q{i} = int32?\n"),
@@ -118,15 +121,15 @@ fn level_word(l: DiagnosticLevel) -> &'static str {
     }
 }
 
-struct Expect {
-    level: &'static str,
-    code: String,
-    message: String,
-    span: Option<(usize, usize, usize, usize, String)>,
-    notes: Vec<(String, Option<(usize, usize, usize, usize, String)>)>,
+pub struct Expect {
+    pub level: &'static str,
+    pub code: String,
+    pub message: String,
+    pub span: Option<(usize, usize, usize, usize, String)>,
+    pub notes: Vec<(String, Option<(usize, usize, usize, usize, String)>)>,
 }
 
-fn expectations(diags: &[Diagnostic]) -> Vec<Expect> {
+pub fn expectations(diags: &[Diagnostic]) -> Vec<Expect> {
     let sp = |s: &slicec::slice_file::Span| (s.start.row, s.start.col, s.end.row, s.end.col, s.file.clone());
     diags
         .iter()
@@ -188,7 +191,7 @@ fn check_json(stream: &str, expected: &[Expect]) -> CaseResult {
 }
 
 /// Parses one snippet at `lines[*i..]` and checks it against the span and the file text.
-fn check_snippet(lines: &[&str], i: &mut usize, span: &(usize, usize, usize, usize, String), file_text: &str, what: &str) -> CaseResult {
+pub fn check_snippet(lines: &[&str], i: &mut usize, span: &(usize, usize, usize, usize, String), file_text: &str, what: &str) -> CaseResult {
     let (r1, c1, r2, c2, file) = span;
     let arrow = format!(" --> {file}:{r1}:{c1}");
     check!(
@@ -239,7 +242,7 @@ fn check_snippet(lines: &[&str], i: &mut usize, span: &(usize, usize, usize, usi
     Ok(())
 }
 
-fn check_human(stream: &str, expected: &[Expect], texts: &dyn Fn(&str) -> Option<String>) -> Result<(usize, usize), Fail> {
+pub fn check_human(stream: &str, expected: &[Expect], texts: &dyn Fn(&str) -> Option<String>) -> Result<(usize, usize), Fail> {
     let plain = strip_ansi(stream);
     let lines: Vec<&str> = plain.split('\n').collect();
     let mut i = 0usize;
